@@ -52,8 +52,10 @@ class _TransactionBase:
                 table = self._mdib.context_states if transaction_item.new.is_context_state else self._mdib.states
             if transaction_item.new is None:
                 continue  # state was deleted (context state removed via entity interface), nothing to add or report
-            table.add_object_no_lock(transaction_item.new)
-            updates_list.append(transaction_item.new.mk_copy(copy_node=False))
+            # the application might have kept transaction_item.new: the mdib gets an object of its own
+            new_state = transaction_item.new.mk_copy(copy_node=False)
+            table.add_object_no_lock(new_state)
+            updates_list.append(new_state.mk_copy(copy_node=False))
         return updates_list
 
     def get_state_transaction_item(self, handle: str) -> TransactionItem | None:
@@ -347,11 +349,11 @@ class DescriptorTransaction(_TransactionBase):
                     continue
                 else:
                     # this is an update operation
-                    proc.descr_updated.append(new_descriptor.mk_copy())  # the mdib shares values with new_descriptor
+                    proc.descr_updated.append(new_descriptor.mk_copy())
                     self._logger.debug(  # noqa: PLE1205
                         'transaction_manager: update descriptor Handle={}, DescriptorVersion={}',
                         new_descriptor.Handle, new_descriptor.DescriptorVersion)
-                    orig_descriptor.update_from_other_container(new_descriptor)
+                    orig_descriptor.update_from_other_container(new_descriptor.mk_copy())
                     self._update_corresponding_state(orig_descriptor)
                     self._mdib.descriptions.update_object_no_lock(orig_descriptor)
             for updates_dict, dest_list in ((self.alert_state_updates, proc.alert_updates),
